@@ -110,7 +110,11 @@ ValueLattice ==
 PairLattice ==
     UNION {{RespCase(k, v, BIG, "pair-lattice") : v \in TwoAtATime(RespSchema(k), F, FALSE)} :
               k \in {"GetInfo", "MakeCredential", "GetAssertion", "ClientPin", "CredentialManagement"}}
-    \cup {RespCase("GetAssertion", [GaRespMin EXCEPT !.user = <<u>>], BIG, "pair-lattice-nested") : u \in TwoAtATime("User", F, FALSE)}
+    \cup {RespCase("GetAssertion", [GaRespMin EXCEPT !.user = <<u>>], BIG, "pair-lattice-nested") : u \in TwoAtATime("User", F, FALSE) \cup RelatedPairs("User", F, FALSE)}
+    \cup {RespCase("CredentialManagement", [CmRespMin EXCEPT !.rp = <<r>>], BIG, "related-pair-nested") : r \in RelatedPairs("Rp", F, FALSE)}
+    \cup {RespCase("CredentialManagement", [CmRespMin EXCEPT !.user = <<u>>], BIG, "related-pair-nested") : u \in RelatedPairs("User", F, FALSE)}
+    \cup UNION {{RespCase(k, v, BIG, "related-pair") : v \in RelatedPairs(RespSchema(k), F, FALSE)} :
+                 k \in {"GetInfo", "MakeCredential", "GetAssertion", "ClientPin", "CredentialManagement"}}
     \cup {RespCase("GetInfo", [GiMin EXCEPT !.options = <<o>>], BIG, "pair-lattice-nested") : o \in TwoAtATime("GetInfoOptions", F, FALSE)}
 
 \* every TRIPLE of members at the upper ends of their types
@@ -123,4 +127,5 @@ TripleLatticeBig ==      \* some 2000 triples of the 24 GetInfo members: the tho
 MC_Cases == TripleLattice \cup ValueLattice \cup PairLattice \cup BoolCases \cup GetInfoCases \cup McCases \cup GaCases \cup CpCases \cup CmCases \cup LbCases \cup BodylessCases
             \cup LatticeCases \cup TypePairs
 MC_CasesDeep == MC_Cases \cup TripleLatticeBig
+LatticeAll == ValueLattice \cup PairLattice
 =============================================================================
